@@ -21,6 +21,10 @@
 //!     port the daemon could pick for bitcoind, observation of exit status, connection target, credentials sent,
 //!     directories created, number of tower keys after two runs, and the daemon's own report of non-default settings.
 //!
+//! `toolbin <teos-cli binary> <meta.json> <cases.ndjson> <workdir>`
+//!     the cases of program "teos-cli" on the real binary: data directory with teos.toml and the certificates the tool
+//!     reads, listeners wherever it could look for the tower; observed: where it connects.
+//!
 //! Output: one JSON summary on stdout.  A panic of the code under test is data.
 
 use std::collections::{BTreeMap, BTreeSet};
@@ -29,7 +33,7 @@ use std::net::{IpAddr, SocketAddr, TcpListener, TcpStream};
 use std::panic::{catch_unwind, AssertUnwindSafe};
 use std::path::{Path, PathBuf};
 use std::process::{Command, Stdio};
-use std::sync::atomic::{AtomicBool, Ordering};
+use std::sync::atomic::{AtomicBool, AtomicU64, Ordering};
 use std::sync::mpsc::{channel, Receiver, Sender};
 use std::time::{Duration, Instant};
 
@@ -38,14 +42,19 @@ use rand::{Rng, SeedableRng};
 use serde_json::{json, Map, Value};
 use structopt::StructOpt;
 
+use teos::cli_config;
 use teos::config::{self, Config, Opt};
 use verif_harness::trace::TraceWriter;
 
 /// true while code under test runs inside catch_unwind (its panics are data and stay quiet)
 static IN_SUT: AtomicBool = AtomicBool::new(false);
 
+/// counts the cases whose file mentions nothing: every other one of them runs without any teos.toml at all
+static EMPTY_FILES: AtomicU64 = AtomicU64::new(0);
+
 const PORT_OPT: &str = "btc_rpc_port";
 const NET_OPT: &str = "btc_network";
+const DAEMON: &str = "teosd";
 
 // ---------------------------------------------------------------------------------------------------------------
 // META
@@ -61,6 +70,9 @@ struct Meta {
     known: Vec<String>,
     unknown: Vec<String>,
     net_default_port: Map<String, Value>,
+    tool_opts: Vec<String>,
+    tool_defaults: Map<String, Value>,
+    tool_command: String,
 }
 
 fn as_obj(v: &Value) -> Map<String, Value> {
@@ -102,6 +114,9 @@ fn load_meta(path: &str) -> Meta {
         known: strs(&v["known_networks"]),
         unknown: strs(&v["unknown_networks"]),
         net_default_port: as_obj(&v["net_default_port"]),
+        tool_opts: strs(&v["tool_opts"]),
+        tool_defaults: as_obj(&v["tool_defaults"]),
+        tool_command: v["tool_command"].as_str().unwrap().to_owned(),
     }
 }
 
@@ -121,8 +136,8 @@ fn toml_text(file: &Map<String, Value>) -> String {
     s
 }
 
-fn cli_args(cli: &Map<String, Value>, meta: &Meta, datadir: &Path) -> Vec<String> {
-    let mut a = vec!["teosd".to_owned(), "--datadir".to_owned(), datadir.to_str().unwrap().to_owned()];
+fn cli_args(prog: &str, cli: &Map<String, Value>, meta: &Meta, datadir: &Path) -> Vec<String> {
+    let mut a = vec![prog.to_owned(), "--datadir".to_owned(), datadir.to_str().unwrap().to_owned()];
     for (k, v) in cli {
         let name = &meta.opts.get(k).unwrap_or_else(|| panic!("unknown option {k}")).cli;
         assert!(!name.is_empty(), "{k} has no command-line option");
@@ -140,13 +155,26 @@ fn cli_args(cli: &Map<String, Value>, meta: &Meta, datadir: &Path) -> Vec<String
             other => panic!("cannot pass {other} on the command line"),
         }
     }
+    if prog != DAEMON {
+        a.push(meta.tool_command.clone());
+    }
     a
+}
+
+/// "The file mentions nothing" is concretised alternately as an empty teos.toml and as no teos.toml.
+fn write_conf_file(dir: &Path, file_text: &str) {
+    let path = dir.join("teos.toml");
+    if file_text.is_empty() && EMPTY_FILES.fetch_add(1, Ordering::SeqCst) % 2 == 1 {
+        let _ = std::fs::remove_file(&path);
+    } else {
+        std::fs::write(&path, file_text).expect("cannot write teos.toml");
+    }
 }
 
 /// What the real code did with one pair of sources.
 struct Run {
     patched: Value,
-    verdict: &'static str, // "running" | "refused"
+    verdict: &'static str, // "running" | "refused"; teos-cli: "ready"
     reason: String,
     fin: Value,
 }
@@ -168,16 +196,28 @@ fn classify(msg: &str) -> &'static str {
     }
 }
 
-/// main.rs, lines "let opt = Opt::from_args()" to "conf.verify()", on the real types.
-fn run_inproc(dir: &Path, file: &Map<String, Value>, cli: &Map<String, Value>, meta: &Meta) -> Outcome {
-    run_inproc_text(dir, &toml_text(file), cli, meta)
+/// main.rs, lines "let opt = Opt::from_args()" to "conf.verify()" (teos-cli: cli.rs up to "conf.patch_with_options"),
+/// on the real types.
+fn run_inproc(prog: &str, dir: &Path, file: &Map<String, Value>, cli: &Map<String, Value>, meta: &Meta) -> Outcome {
+    run_inproc_text(prog, dir, &toml_text(file), cli, meta)
 }
 
-fn run_inproc_text(dir: &Path, file_text: &str, cli: &Map<String, Value>, meta: &Meta) -> Outcome {
-    std::fs::write(dir.join("teos.toml"), file_text).expect("cannot write teos.toml");
-    let args = cli_args(cli, meta, dir);
+fn run_inproc_text(prog: &str, dir: &Path, file_text: &str, cli: &Map<String, Value>, meta: &Meta) -> Outcome {
+    write_conf_file(dir, file_text);
+    let args = cli_args(prog, cli, meta, dir);
     IN_SUT.store(true, Ordering::SeqCst);
     let r = catch_unwind(AssertUnwindSafe(|| {
+        if prog != DAEMON {
+            let opt = match cli_config::Opt::from_iter_safe(args.iter()) {
+                Ok(o) => o,
+                Err(e) => return Outcome::CliRejected(e.message.lines().next().unwrap_or("").to_owned()),
+            };
+            let path = config::data_dir_absolute_path(opt.data_dir.clone());
+            let mut conf = config::from_file::<cli_config::Config>(&path.join("teos.toml"));
+            conf.patch_with_options(opt);
+            let v = json!({"rpc_bind": conf.rpc_bind, "rpc_port": conf.rpc_port});
+            return Outcome::Done(Run { patched: v.clone(), verdict: "ready", reason: String::new(), fin: v });
+        }
         let opt = match Opt::from_iter_safe(args.iter()) {
             Ok(o) => o,
             Err(e) => return Outcome::CliRejected(e.message.lines().next().unwrap_or("").to_owned()),
@@ -226,6 +266,9 @@ fn compare(exp: &Value, run: &Run) -> (Vec<String>, u64) {
         if run.patched.get(PORT_OPT) != Some(&exp["port"]) {
             bad.push(format!("patched:{PORT_OPT}"));
         }
+    }
+    if run.verdict == "ready" {
+        return (bad, n); // teos-cli: nothing is verified
     }
     let accept = exp["accept"].as_bool().unwrap();
     n += 1;
@@ -285,7 +328,8 @@ impl Tally {
         if smaller && (self.examples.len() < 200 || self.examples.contains_key(&sig)) {
             self.examples.insert(
                 sig,
-                (size, json!({"line": line, "fam": case["fam"], "ctx": case["ctx"], "file": case["file"],
+                (size, json!({"line": line, "fam": case["fam"], "ctx": case["ctx"],
+                              "prog": case.get("prog").cloned().unwrap_or(json!(DAEMON)), "file": case["file"],
                               "cli": case["cli"], "exp": case["exp"], "differs": differs, "got": got})),
             );
         }
@@ -299,11 +343,37 @@ impl Tally {
     }
 }
 
+/// option -> the default its help text mentions, for the options that mention one
+fn help_defaults(mut app: structopt::clap::App, meta: &Meta) -> Value {
+    let mut buf = Vec::new();
+    let _ = app.write_long_help(&mut buf);
+    let text = String::from_utf8_lossy(&buf).to_string();
+    let mut out = Map::new();
+    for (o, m) in &meta.opts {
+        if m.cli.is_empty() {
+            continue;
+        }
+        let needle = format!("--{} ", m.cli);
+        if let Some(p) = text.find(&needle) {
+            let rest = &text[p + needle.len()..];
+            let end = rest.find("\n        --").or_else(|| rest.find("\n    --")).unwrap_or(rest.len());
+            let seg = &rest[..end];
+            if let Some(d) = seg.find("[default: ") {
+                if let Some(e) = seg[d..].find(']') {
+                    out.insert(o.clone(), json!(seg[d + "[default: ".len()..d + e].trim()));
+                }
+            }
+        }
+    }
+    Value::Object(out)
+}
+
 fn mode_cases(meta_path: &str, cases_path: &str, workdir: &str) {
     let meta = load_meta(meta_path);
     let dir = abs(workdir).join("inproc");
     std::fs::create_dir_all(&dir).unwrap();
     let mut t = Tally::new();
+    let mut ready = 0u64;
 
     // documented defaults against Config::default()
     let dflt = serde_json::to_value(Config::default()).unwrap();
@@ -313,6 +383,15 @@ fn mode_cases(meta_path: &str, cases_path: &str, workdir: &str) {
             default_diffs.push(json!({"option": o, "documented": v, "code": dflt.get(o)}));
         }
     }
+    let td = cli_config::Config::default();
+    let tool_dflt = json!({"rpc_bind": td.rpc_bind, "rpc_port": td.rpc_port});
+    for (o, v) in &meta.tool_defaults {
+        if tool_dflt.get(o) != Some(v) {
+            default_diffs.push(json!({"option": format!("teos-cli:{o}"), "documented": v, "code": tool_dflt.get(o)}));
+        }
+    }
+    // informational: the "[default: X]" remarks of `teosd -h` / `teos-cli -h`
+    let help_defaults = json!({"teosd": help_defaults(Opt::clap(), &meta), "teos-cli": help_defaults(cli_config::Opt::clap(), &meta)});
     let unmodelled: Vec<String> = as_obj(&dflt).keys().filter(|k| !meta.opts.contains_key(*k)).cloned().collect();
 
     let f = BufReader::new(std::fs::File::open(cases_path).expect("cannot open cases"));
@@ -325,12 +404,13 @@ fn mode_cases(meta_path: &str, cases_path: &str, workdir: &str) {
         let file = as_obj(&case["file"]);
         let cli = as_obj(&case["cli"]);
         t.cases += 1;
-        match run_inproc(&dir, &file, &cli, &meta) {
+        let prog = case["prog"].as_str().unwrap_or(DAEMON);
+        match run_inproc(prog, &dir, &file, &cli, &meta) {
             Outcome::Done(run) => {
-                if run.verdict == "running" {
-                    t.running += 1;
-                } else {
-                    t.refused += 1;
+                match run.verdict {
+                    "running" => t.running += 1,
+                    "refused" => t.refused += 1,
+                    _ => ready += 1,
                 }
                 let (bad, n) = compare(&case["exp"], &run);
                 t.comparisons += n;
@@ -346,8 +426,9 @@ fn mode_cases(meta_path: &str, cases_path: &str, workdir: &str) {
     println!(
         "{}",
         json!({"cases": t.cases, "comparisons": t.comparisons, "running": t.running, "refused": t.refused,
+               "tool_ready": ready,
                "mismatching_cases": t.bad_cases, "signatures": t.signatures, "first": t.first(),
-               "default_diffs": default_diffs, "unmodelled_fields": unmodelled})
+               "default_diffs": default_diffs, "unmodelled_fields": unmodelled, "help_defaults": help_defaults})
     );
 }
 
@@ -387,10 +468,12 @@ fn mode_random(meta_path: &str, n: usize, seed: u64, out: &str, workdir: &str) {
     let mut rng = StdRng::seed_from_u64(seed);
     let mut tw = TraceWriter::create(out);
     let creds = ["btc_rpc_user", "btc_rpc_password", "btc_rpc_cookie"];
-    let (mut running, mut refused, mut aborts) = (0u64, 0u64, 0u64);
+    let (mut running, mut refused, mut ready, mut aborts) = (0u64, 0u64, 0u64, 0u64);
     for _ in 0..n {
         let mut file = Map::new();
         let mut cli = Map::new();
+        // one case in eight is a start of teos-cli (same kind of file; its own, smaller command line)
+        let prog = if rng.gen_range(0..8) == 0 { "teos-cli" } else { DAEMON };
         // how densely the sources are populated varies from case to case
         let pf: f64 = [0.1, 0.5, 0.9][rng.gen_range(0..3)];
         let pc: f64 = [0.1, 0.5, 0.9][rng.gen_range(0..3)];
@@ -401,7 +484,8 @@ fn mode_random(meta_path: &str, n: usize, seed: u64, out: &str, workdir: &str) {
             if rng.gen::<f64>() < pf {
                 file.insert(o.clone(), rand_value(&mut rng, o, &m.kind, &meta));
             }
-            if !m.cli.is_empty() && rng.gen::<f64>() < pc {
+            let on_cli = if prog == DAEMON { !m.cli.is_empty() } else { meta.tool_opts.contains(o) };
+            if on_cli && rng.gen::<f64>() < pc {
                 let v = if m.kind == "flag" || m.kind == "oneshot" { json!(true) } else { rand_value(&mut rng, o, &m.kind, &meta) };
                 cli.insert(o.clone(), v);
             }
@@ -415,7 +499,7 @@ fn mode_random(meta_path: &str, n: usize, seed: u64, out: &str, workdir: &str) {
                 if w != 1 {
                     file.insert((*o).to_owned(), json!(rand_word(&mut rng, "f")));
                 }
-                if w != 0 {
+                if w != 0 && prog == DAEMON {
                     cli.insert((*o).to_owned(), json!(rand_word(&mut rng, "c")));
                 }
             }
@@ -424,40 +508,51 @@ fn mode_random(meta_path: &str, n: usize, seed: u64, out: &str, workdir: &str) {
                 if rng.gen::<f64>() < 0.3 {
                     file.insert(o.to_owned(), json!(rand_word(&mut rng, "f")));
                 }
-                if rng.gen::<f64>() < 0.3 {
+                if rng.gen::<f64>() < 0.3 && prog == DAEMON {
                     cli.insert(o.to_owned(), json!(rand_word(&mut rng, "c")));
                 }
             }
         }
-        match record(&mut tw, run_inproc(&dir, &file, &cli, &meta), &file, &cli, &meta) {
+        match record(&mut tw, prog, run_inproc(prog, &dir, &file, &cli, &meta), &file, &cli, &meta) {
             "running" => running += 1,
             "refused" => refused += 1,
+            "ready" => ready += 1,
             _ => aborts += 1,
         }
     }
     let events = tw.finish();
-    println!("{}", json!({"events": events, "running": running, "refused": refused, "aborts": aborts, "out": out}));
+    println!(
+        "{}",
+        json!({"events": events, "running": running, "refused": refused, "tool_ready": ready, "aborts": aborts, "out": out})
+    );
 }
 
 /// Writes what the code did with one pair of sources as an event for Trace_Config.tla.
-fn record(tw: &mut TraceWriter, o: Outcome, file: &Map<String, Value>, cli: &Map<String, Value>, meta: &Meta) -> &'static str {
+fn record(
+    tw: &mut TraceWriter,
+    prog: &str,
+    o: Outcome,
+    file: &Map<String, Value>,
+    cli: &Map<String, Value>,
+    meta: &Meta,
+) -> &'static str {
     match o {
         Outcome::Done(run) => {
             // only the options the specification knows are recorded (others are reported by `cases`)
             let proj = |v: &Value| -> Value {
                 Value::Object(as_obj(v).into_iter().filter(|(k, _)| meta.opts.contains_key(k)).collect())
             };
-            tw.emit(&json!({"ev": "case", "file": file, "cli": cli,
+            tw.emit(&json!({"ev": "case", "prog": prog, "file": file, "cli": cli,
                             "obs": {"patched": proj(&run.patched), "verdict": run.verdict, "reason": run.reason,
                                     "final": proj(&run.fin)}}));
             run.verdict
         }
         Outcome::CliRejected(m) => {
-            tw.emit(&json!({"ev": "abort", "what": "cli-rejected", "message": m, "file": file, "cli": cli}));
+            tw.emit(&json!({"ev": "abort", "what": "cli-rejected", "message": m, "prog": prog, "file": file, "cli": cli}));
             "abort"
         }
         Outcome::Panic(m) => {
-            tw.emit(&json!({"ev": "abort", "what": "panic", "message": m, "file": file, "cli": cli}));
+            tw.emit(&json!({"ev": "abort", "what": "panic", "message": m, "prog": prog, "file": file, "cli": cli}));
             "abort"
         }
     }
@@ -480,13 +575,15 @@ fn mode_rerun(meta_path: &str, input: &str, out: &str, workdir: &str) {
         }
         let file = as_obj(&v["file"]);
         let cli = as_obj(&v["cli"]);
+        let prog = v.get("prog").and_then(|p| p.as_str()).unwrap_or(DAEMON);
         let o = match v.get("file_text").and_then(|t| t.as_str()) {
-            Some(t) => run_inproc_text(&dir, t, &cli, &meta),
-            None => run_inproc(&dir, &file, &cli, &meta),
+            Some(t) => run_inproc_text(prog, &dir, t, &cli, &meta),
+            None => run_inproc(prog, &dir, &file, &cli, &meta),
         };
-        match record(&mut tw, o, &file, &cli, &meta) {
+        match record(&mut tw, prog, o, &file, &cli, &meta) {
             "running" => running += 1,
             "refused" => refused += 1,
+            "ready" => {}
             _ => aborts += 1,
         }
     }
@@ -557,12 +654,17 @@ fn serve(mut s: TcpStream, local: SocketAddr, tx: &Sender<Conn>) {
     let _ = s.flush();
 }
 
-fn listen(addr: SocketAddr, tx: Sender<Conn>) -> bool {
+/// `http`: answer like a bitcoind (see `serve`); otherwise the connection is only reported and closed.
+fn listen(addr: SocketAddr, tx: Sender<Conn>, http: bool) -> bool {
     match TcpListener::bind(addr) {
         Ok(l) => {
             std::thread::spawn(move || {
                 for s in l.incoming().flatten() {
-                    serve(s, addr, &tx);
+                    if http {
+                        serve(s, addr, &tx);
+                    } else {
+                        let _ = tx.send(Conn { ip: addr.ip(), port: addr.port(), authorization: None });
+                    }
                 }
             });
             true
@@ -714,7 +816,7 @@ fn mode_teosd(bin: &str, meta_path: &str, cases_path: &str, workdir: &str) {
     for h in &hosts {
         for p in &ports {
             let a = SocketAddr::new(*h, *p);
-            if listen(a, tx.clone()) {
+            if listen(a, tx.clone(), true) {
                 bound.insert(a);
             } else {
                 unbound.push(a.to_string());
@@ -743,7 +845,7 @@ fn mode_teosd(bin: &str, meta_path: &str, cases_path: &str, workdir: &str) {
         mark_credentials(&mut settings, &suffix);
         let dir = root.join(format!("c{i}"));
         std::fs::create_dir_all(&dir).unwrap();
-        std::fs::write(dir.join("teos.toml"), toml_text(&file)).unwrap();
+        write_conf_file(&dir, &toml_text(&file));
         let mut ours: BTreeSet<String> = ["teos.toml".to_owned()].into_iter().collect();
         for src in [&file, &cli] {
             if let Some(name) = src.get("btc_rpc_cookie").and_then(|c| c.as_str()) {
@@ -751,7 +853,7 @@ fn mode_teosd(bin: &str, meta_path: &str, cases_path: &str, workdir: &str) {
                 ours.insert(name.to_owned());
             }
         }
-        let args = cli_args(&cli, &meta, &dir);
+        let args = cli_args(DAEMON, &cli, &meta, &dir);
         t.cases += 1;
         let accept = exp["accept"].as_bool().unwrap();
         let r1 = run_bin(bin, &dir, &args, &rx, &suffix, &mut foreign_seen);
@@ -801,7 +903,7 @@ fn mode_teosd(bin: &str, meta_path: &str, cases_path: &str, workdir: &str) {
             if r1.conns.is_empty() {
                 if observable {
                     t.comparisons += 1;
-                    bad.push("bin:refused-valid".into());
+                    bad.push("bin:no-connection".into());
                 } else {
                     unobservable += 1;
                 }
@@ -893,6 +995,115 @@ fn mode_teosd(bin: &str, meta_path: &str, cases_path: &str, workdir: &str) {
     );
 }
 
+/// teos-cli on the real binary (cli.rs: Opt::from_args, from_file, patch_with_options, then the connection to the tower).
+fn mode_toolbin(bin: &str, meta_path: &str, cases_path: &str, workdir: &str) {
+    let meta = load_meta(meta_path);
+    let root = abs(workdir).join("toolbin");
+    let _ = std::fs::remove_dir_all(&root);
+    std::fs::create_dir_all(&root).unwrap();
+    // the certificates the tool reads from its data directory before it connects: made by the tower's own generator
+    let pems = root.join("pems");
+    std::fs::create_dir_all(&pems).unwrap();
+    teos::tls::tls_init(&pems).expect("cannot generate certificates");
+    let cases: Vec<Value> = BufReader::new(std::fs::File::open(cases_path).expect("cannot open cases"))
+        .lines()
+        .map(|l| l.unwrap())
+        .filter(|l| !l.trim().is_empty())
+        .map(|l| serde_json::from_str::<Value>(&l).expect("bad case line"))
+        .filter(|c| c["prog"].as_str() == Some("teos-cli"))
+        .collect();
+    let mut hosts: BTreeSet<IpAddr> = ["127.0.0.1", "::1"].iter().map(|h| h.parse().unwrap()).collect();
+    let mut ports: BTreeSet<u16> = meta.tool_defaults.get("rpc_port").and_then(|p| p.as_u64()).map(|p| p as u16).into_iter().collect();
+    for c in &cases {
+        for src in ["file", "cli"] {
+            let m = as_obj(&c[src]);
+            if let Some(ip) = m.get("rpc_bind").and_then(|h| h.as_str()).and_then(|h| h.parse::<IpAddr>().ok()) {
+                hosts.insert(ip);
+            }
+            if let Some(p) = m.get("rpc_port").and_then(|p| p.as_u64()) {
+                ports.insert(p as u16);
+            }
+        }
+    }
+    let (tx, rx) = channel::<Conn>();
+    let mut bound: BTreeSet<SocketAddr> = BTreeSet::new();
+    let mut unbound: Vec<String> = Vec::new();
+    for h in &hosts {
+        for p in &ports {
+            let a = SocketAddr::new(*h, *p);
+            if listen(a, tx.clone(), false) {
+                bound.insert(a);
+            } else {
+                unbound.push(a.to_string());
+            }
+        }
+    }
+    let mut t = Tally::new();
+    let mut unobservable = 0u64;
+    let mut ignored = 0u64;
+    for (i, case) in cases.iter().enumerate() {
+        let file = as_obj(&case["file"]);
+        let cli = as_obj(&case["cli"]);
+        let settings = as_obj(&case["exp"]["settings"]);
+        let dir = root.join(format!("c{i}"));
+        std::fs::create_dir_all(&dir).unwrap();
+        write_conf_file(&dir, &toml_text(&file));
+        for f in ["ca.pem", "client.pem", "client-key.pem"] {
+            std::fs::copy(pems.join(f), dir.join(f)).expect("cannot copy certificate");
+        }
+        let args = cli_args("teos-cli", &cli, &meta, &dir);
+        t.cases += 1;
+        let r = run_bin(bin, &dir, &args, &rx, "", &mut ignored);
+        let host = settings["rpc_bind"].as_str().unwrap();
+        let want_ips: Vec<IpAddr> = if host == "localhost" {
+            vec!["127.0.0.1".parse().unwrap(), "::1".parse().unwrap()]
+        } else {
+            vec![host.parse().expect("cases for the binary use IP literals or localhost")]
+        };
+        let want_port = settings["rpc_port"].as_u64().unwrap() as u16;
+        let observable = want_ips.iter().any(|ip| bound.contains(&SocketAddr::new(*ip, want_port)));
+        let mut bad: Vec<String> = Vec::new();
+        if r.hung {
+            bad.push("toolbin:hang".into());
+        }
+        if !observable {
+            unobservable += 1;
+        } else {
+            // the tool connects once: the tower's address it was configured with must see that connection
+            // (connections elsewhere may be somebody else's on this machine and are only used to say what differs)
+            t.comparisons += 2;
+            if !r.conns.iter().any(|c| want_ips.contains(&c.ip) && c.port == want_port) {
+                if r.conns.is_empty() {
+                    bad.push("toolbin:no-connection".into());
+                } else {
+                    if r.conns.iter().all(|c| !want_ips.contains(&c.ip)) {
+                        bad.push("toolbin:final:rpc_bind".into());
+                    }
+                    if r.conns.iter().all(|c| c.port != want_port) {
+                        bad.push("toolbin:final:rpc_port".into());
+                    }
+                    if bad.is_empty() {
+                        bad.push("toolbin:final:rpc_bind+rpc_port".into());
+                    }
+                }
+            }
+        }
+        if !bad.is_empty() {
+            let got = json!({"exit": r.exit, "hung": r.hung,
+                             "connections": r.conns.iter().map(|c| json!({"ip": c.ip.to_string(), "port": c.port})).collect::<Vec<_>>(),
+                             "output_tail": r.out.lines().rev().take(4).collect::<Vec<_>>()});
+            t.record(i + 1, case, bad, got);
+        } else {
+            let _ = std::fs::remove_dir_all(&dir);
+        }
+    }
+    println!(
+        "{}",
+        json!({"cases": t.cases, "comparisons": t.comparisons, "mismatching_cases": t.bad_cases, "signatures": t.signatures,
+               "first": t.first(), "unobservable": unobservable, "unbound": unbound, "listeners": bound.len()})
+    );
+}
+
 fn main() {
     let args: Vec<String> = std::env::args().collect();
     // panics of the code under test are reported as data
@@ -908,10 +1119,11 @@ fn main() {
             mode_random(&args[2], args[3].parse().unwrap(), args[4].parse().unwrap(), &args[5], &args[6])
         }
         Some("rerun") if args.len() == 6 => mode_rerun(&args[2], &args[3], &args[4], &args[5]),
+        Some("toolbin") if args.len() == 6 => mode_toolbin(&args[2], &args[3], &args[4], &args[5]),
         Some("teosd") if args.len() == 6 => mode_teosd(&args[2], &args[3], &args[4], &args[5]),
         _ => {
             eprintln!(
-                "usage: cfg_rig cases <meta> <cases> <workdir> | random <meta> <n> <seed> <out> <workdir> | rerun <meta> <in> <out> <workdir> | teosd <bin> <meta> <cases> <workdir>"
+                "usage: cfg_rig cases <meta> <cases> <workdir> | random <meta> <n> <seed> <out> <workdir> | rerun <meta> <in> <out> <workdir> | teosd <bin> <meta> <cases> <workdir> | toolbin <bin> <meta> <cases> <workdir>"
             );
             std::process::exit(2);
         }
